@@ -48,12 +48,12 @@ def ok (vars : PyDict S S) (d : Option LcDoc) (o : Obs) : Bool :=
 def okAny (o : Obs) : Bool := !o.raised
 
 /-- the shape the renderer guarantees (decidable form of `WF`, Lemmas/C19): no `val` on the root,
-    non-empty instance ids, colon-free prefixes and local names, no unprefixed entry called InstanceID -/
+    colon-free prefixes and local names, no unprefixed entry called InstanceID -/
 def wfEntryB (e : Entry) : Bool :=
   !e.name.contains ':' && (match e.pfx with | some p => !p.contains ':' | none => e.name != sInstanceID)
 
 def wfB (d : LcDoc) : Bool :=
-  (get? d.rootAttrs sVal).isNone && d.insts.all fun i => !i.id.isEmpty && i.entries.all wfEntryB
+  (get? d.rootAttrs sVal).isNone && d.insts.all fun i => i.entries.all wfEntryB
 
 def observe (vars : PyDict S S) : Except PyErr (PyDict S S × List (List S)) → Obs
   | .error _ => ⟨true, vars, []⟩
